@@ -485,3 +485,273 @@ def check_C05(tier_, sd, consts_ok, consts_detail):
             violations.append(proj_violation("C05", "trace / verdict / bytes differ from Run.txtpp_run on the same schedule", q, oi, om, found=False))
     cov["runs_with_reachable_cycle"] = ncyc
     return {"coverage": cov, "violations": violations}
+
+# ------------------------------------------------------------------ generated projects: C01, C12, C13, C16
+def gen_batch(rng, n, **kw):
+    return [gen.gen_project(rng.fork("p%d" % i), "p%d" % i, **kw) for i in range(n)]
+
+def generated_paths(p, o):
+    """paths of the final tree that are not part of the initial tree (outputs and temp files)"""
+    init = {f for f, _ in p.files}
+    return sorted(k for k, v in o["F"].items() if v is not None and k not in init)
+
+def dist_of(projs):
+    st = collections.Counter()
+    for p in projs: st.update(getattr(p, "stats", {}))
+    return dict(st)
+
+def check_C01(tier_, sd, consts_ok, consts_detail):
+    rng = Rng(sd).fork("C01")
+    n = 700 if tier_ == "quick" else 6000
+    projs = gen_batch(rng, n, modes=(0,))
+    oi, om = both(projs)
+    violations = []; verd = collections.Counter(); nontriv = set()
+    for p, a, b in zip(projs, oi, om):
+        verd[(a["verdict"], b["verdict"])] += 1
+        gp = generated_paths(p, a)
+        if gp: nontriv.add(tuple((k, a["F"][k]) for k in gp))
+        same = a["verdict"] == b["verdict"] and (a["verdict"] != "ok" or a["F"] == b["F"])
+        if not same and len(violations) < 5:
+            violations.append(proj_violation("C01", "verdict or generated bytes differ from the README semantics (Spec.spec_file = Pp.pp_run, theorem machine_refines_spec)", p, a, b))
+    # the repository's own golden fixtures as a sanity check of the specification
+    fx = fixture_projects()
+    fi, fm = both(fx)
+    nfx = 0
+    for p, a, b in zip(fx, fi, fm):
+        for path, exp in p.expected.items():
+            if b["verdict"] != "ok" or a["verdict"] != "ok": continue
+            nfx += 1
+            if b["F"].get(path) != exp and len(violations) < 5:
+                violations.append(proj_violation("C01", "the specification disagrees with the repository's golden file for %s" % path, p, a, b, found=False,
+                                                 extra={"golden": short(exp), "spec": short(b["F"].get(path))}))
+            if a["F"].get(path) != exp and len(violations) < 5:
+                violations.append(proj_violation("C01", "the implementation disagrees with the repository's golden file for %s" % path, p, a, b,
+                                                 extra={"golden": short(exp), "got": short(a["F"].get(path))}))
+    cov = {"evaluations": n + len(fx), "distinct_nontrivial": len(nontriv),
+           "rule": "grammar-directed random projects inside the documented domain (1-5 sources over <= 3 directories, include/after edges, plain includes, temp targets, pure commands, tags, "
+                   "LF/CRLF/mixed endings, erroneous directives at low rate), Build mode, random controlled schedule; distinct_nontrivial = distinct sets of generated files (path, bytes)",
+           "verdicts(impl,model)": {"%s/%s" % k: v for k, v in verd.items()}, "input_distribution": dist_of(projs),
+           "golden_fixture_files_checked": nfx,
+           "samples": [projs[0].to_json()["files"]]}
+    return {"coverage": cov, "violations": violations}
+
+def fixture_projects():
+    """tests/examples/* of the repository whose commands are pure: (project, {output path: golden bytes})"""
+    out = []
+    root = os.path.join(REPO, "tests", "examples")
+    for d in ["include", "write", "tag", "after", "empty_test"]:
+        top = os.path.join(root, d)
+        if not os.path.isdir(top): continue
+        subs = [top] + [os.path.join(top, x) for x in sorted(os.listdir(top)) if os.path.isdir(os.path.join(top, x))]
+        for sdir in subs:
+            files = [f for f in sorted(os.listdir(sdir)) if os.path.isfile(os.path.join(sdir, f))]
+            if not any(".txtpp" in f for f in files): continue
+            p = Project("fx-" + os.path.relpath(sdir, root).replace("/", "-"))
+            p.expected = {}
+            ok = True
+            for f in files:
+                data = open(os.path.join(sdir, f), "rb").read()
+                if f.endswith(".expected"):
+                    p.expected["/" + f[:-9]] = data
+                else:
+                    p.files.append(("/" + f, data))
+                    if b"TXTPP#run" in data and (b"python" in data or b"cat " in data or b"$" in data or b"echo -n" in data or b"./" in data): ok = False
+            if not ok or not p.expected: continue
+            p.inputs = ["."]; p.sched = [0] * 40
+            out.append(p)
+    return out
+
+def check_C13(tier_, sd, consts_ok, consts_detail):
+    rng = Rng(sd).fork("C13")
+    n = 600 if tier_ == "quick" else 5000
+    # per source, fixed environment: no include of another generated output (whose own final line ending the option changes)
+    base = gen_batch(rng, n, modes=(0,), allow_errors=False, edges="none")
+    on, off = [], []
+    for p in base:
+        a = p.copy(); a.trailing = True; a.id = p.id + "+"; on.append(a)
+        b = p.copy(); b.trailing = False; b.id = p.id + "-"; off.append(b)
+    oi, om = both(on + off)
+    violations = []; rel = collections.Counter(); nontriv = set()
+    for k, p in enumerate(base):
+        ion, ioff = oi[k], oi[n + k]; mon, moff = om[k], om[n + k]
+        init = {f for f, _ in p.files}
+        srcs = {gen.out_name(s) for s in p.srcs}
+        if ion["verdict"] != ioff["verdict"]:
+            if len(violations) < 5: violations.append(proj_violation("C13", "the option changed the verdict", on[k], ion, mon, extra={"off": obs_summary(ioff)}))
+            continue
+        for path in sorted(set(ion["F"]) | set(ioff["F"])):
+            if path in init: continue
+            x, y = ion["F"].get(path), ioff["F"].get(path)
+            if path in srcs:
+                # outputs: identical except for at most one final line ending
+                le = b"\r\n" if dict(p.files)[[s for s in p.srcs if gen.out_name(s) == path][0]].split(b"\n")[0].endswith(b"\r") and b"\n" in dict(p.files)[[s for s in p.srcs if gen.out_name(s) == path][0]] else b"\n"
+                if x is None or y is None or not (x == y or x == y + le):
+                    if len(violations) < 5:
+                        violations.append(proj_violation("C13", "outputs with the option on/off differ by more than one final line ending: %s" % path, on[k], ion, mon,
+                                                         extra={"on": short(x), "off": short(y)}))
+                else:
+                    rel["same" if x == y else "plus-le"] += 1; nontriv.add((x, y))
+                    # a source that ends with an ordinary text line: on ends with that line + le, off with the line
+            else:
+                if x != y and len(violations) < 5:
+                    violations.append(proj_violation("C13", "the option changed a temp file: %s" % path, on[k], ion, mon, extra={"on": short(x), "off": short(y)}))
+        if (ion["verdict"], ion["F"]) != (mon["verdict"], mon["F"]) or (ioff["verdict"], ioff["F"]) != (moff["verdict"], moff["F"]):
+            if len(violations) < 5: violations.append(proj_violation("C13", "bytes differ from the model under one of the two settings", on[k], ion, mon, found=False))
+    # sources that end with an ordinary text line
+    tl = []
+    for k in range(200 if tier_ == "quick" else 2000):
+        r = rng.fork("tl%d" % k)
+        p = Project("tl%d" % k)
+        g = gen.SrcGen(r, le=r.choice(["\n", "\r\n"]), includes=[], temps=["t.tmp"], allow_errors=False, cmds=False)
+        body = g.build(r.below(6)).decode()
+        # an ORDINARY last line: not a directive and not a continuation of a preceding directive (no generator prefix starts like these)
+        last = r.choice(["last line", "Zend", "9 lives", "L", "TXTPP#runx  y"])
+        le = g.le
+        src = (body if body == "" or body.endswith(le) else body + le) + last + r.choice(["", le])
+        p.files = [("/s.txt.txtpp", src.encode())]; p.inputs = ["s.txt"]; p.sched = [0] * 8; p.last = last; p.le = le if (le in src) else "\n"
+        tl.append(p)
+    tl_on = [x.copy() for x in tl]; tl_off = [x.copy() for x in tl]
+    for x in tl_off: x.trailing = False; x.id += "-"
+    ti, tm = both(tl_on + tl_off)
+    ntl = 0
+    for k, p in enumerate(tl):
+        a, b = ti[k], ti[len(tl) + k]
+        if a["verdict"] != "ok": continue
+        ntl += 1
+        x, y = a["F"].get("/s.txt"), b["F"].get("/s.txt")
+        first = p.files[0][1].split(b"\n")[0]
+        le = b"\r\n" if (first.endswith(b"\r") and b"\n" in p.files[0][1]) else b"\n"
+        if not (x is not None and y is not None and x.endswith(p.last.encode() + le) and y.endswith(p.last.encode()) and x == y + le):
+            if len(violations) < 5:
+                violations.append(proj_violation("C13", "source ends with an ordinary text line but the output does not end with that line (+ line ending iff the option is on)", tl_on[k], a, tm[k],
+                                                 extra={"on": short(x), "off": short(y), "last_line": p.last}))
+    cov = {"evaluations": 2 * n + 2 * len(tl), "distinct_nontrivial": len(nontriv),
+           "rule": "every generated project built twice (option on / off), same controlled schedule; relation checked on the implementation's bytes: identical or on = off + line ending, temp files identical; "
+                   "plus sources ending in an ordinary text line; distinct_nontrivial = distinct (on, off) output pairs",
+           "relation_distribution": dict(rel), "text_line_ending_cases": ntl, "input_distribution": dist_of(base),
+           "samples": [{"on": short(oi[0]["F"].get(gen.out_name(base[0].srcs[0]))), "off": short(oi[n]["F"].get(gen.out_name(base[0].srcs[0])))}]}
+    return {"coverage": cov, "violations": violations}
+
+def le_of_source(data):
+    first = data.split(b"\n")[0]
+    if b"\n" not in data: return b"\n"
+    return b"\r\n" if first.endswith(b"\r") else b"\n"
+
+def le_uniform(le, data):
+    if le == b"\n": return b"\r" not in data
+    i = 0
+    while i < len(data):
+        c = data[i:i + 1]
+        if c == b"\n" and (i == 0 or data[i - 1:i] != b"\r"): return False
+        if c == b"\r" and data[i + 1:i + 2] != b"\n": return False
+        i += 1
+    return True
+
+def check_C12(tier_, sd, consts_ok, consts_detail):
+    rng = Rng(sd).fork("C12")
+    n = 700 if tier_ == "quick" else 6000
+    projs = gen_batch(rng, n, modes=(0,), allow_errors=False)
+    # documented domain D1: CR only immediately before LF, in every input
+    for p in projs:
+        p.files = [(f, c.replace(b"\r\n", b"\x00").replace(b"\r", b"").replace(b"\x00", b"\r\n").replace(b"\\r\\n", b"\x00").replace(b"\\r", b"").replace(b"\x00", b"\\r\\n")) for f, c in p.files]
+    oi, om = both(projs)
+    violations = []; classes = collections.Counter(); nontriv = set()
+    for p, a, b in zip(projs, oi, om):
+        srcmap = {gen.out_name(s): s for s in p.srcs}
+        fm = dict(p.files)
+        for path in generated_paths(p, a):
+            data = a["F"][path]
+            # which source produced it: outputs by name, temp files by stem prefix
+            src = srcmap.get(path)
+            if src is None:
+                stem = path.rsplit("/", 1)[1].split("_")[0]
+                cands = [s for s in p.srcs if s.rsplit("/", 1)[1].split(".")[0] == stem]
+                src = cands[0] if cands else None
+            if src is None: continue
+            le = le_of_source(fm[src])
+            ok = le_uniform(le, data)
+            classes[("CRLF" if le == b"\r\n" else "LF") + ("/ok" if ok else "/MIXED")] += 1
+            if b"\n" in data: nontriv.add((le, data))
+            if not ok and len(violations) < 5:
+                violations.append(proj_violation("C12", "%s contains a line terminator other than the ending of the first line of %s" % (path, src), p, a, b,
+                                                 extra={"bytes": repr(data[:300])}))
+        if (a["verdict"], a["F"]) != (b["verdict"], b["F"]) and len(violations) < 5:
+            violations.append(proj_violation("C12", "bytes differ from the model", p, a, b, found=False))
+    cov = {"evaluations": n, "distinct_nontrivial": len(nontriv),
+           "rule": "generated projects with endings chosen independently for the first line, later lines, included files, command output, temp bodies and tag contents (CR only before LF, D1); "
+                   "every generated file of the implementation is scanned: LF mode => no CR, CRLF mode => every LF preceded by CR and every CR followed by LF; "
+                   "distinct_nontrivial = distinct (ending, bytes) of generated files with at least one line terminator",
+           "scan_distribution": dict(classes), "input_distribution": dist_of(projs), "samples": [repr(x[1][:120]) for x in list(nontriv)[:2]]}
+    return {"coverage": cov, "violations": violations}
+
+def check_C16(tier_, sd, consts_ok, consts_detail):
+    rng = Rng(sd).fork("C16")
+    n = 500 if tier_ == "quick" else 4000
+    words = gen.WORDS + gen.LOOKALIKE + ["", " ", "\tx", "TXTPP#", "TXTPP#run", "-TXTPP#write x", "// TXTPP#include f", "TAG1", "é　x", "a\tb  "]
+    # (a) sources without any directive line (look-alikes included); classify with the model
+    texts = []
+    for k in range(n):
+        r = rng.fork("t%d" % k)
+        texts.append([r.choice(words) for _ in range(r.below(8))])
+    dlines = sorted({l for t in texts for l in t})
+    cls = dict(zip(dlines, run_model(["D " + hx(l) for l in dlines])))
+    projs = []; meta = []
+    for k, t in enumerate(texts):
+        t = [l for l in t if cls[l] == "D -"]
+        r = rng.fork("u%d" % k)
+        le = r.choice(["\n", "\r\n"]); final = r.chance(2, 3)
+        src = le.join(t) + (le if (final and t) else "")
+        p = Project("id%d" % k); p.files = [("/s.txt.txtpp", src.encode())]; p.inputs = ["s.txt"]; p.trailing = r.chance(2, 3); p.sched = [0] * 4
+        projs.append(p); meta.append((t, le, final))
+    # (b) escaping arbitrary lines with write
+    esc = []; emeta = []
+    for k in range(n):
+        r = rng.fork("w%d" % k)
+        ls = [r.choice(["-TXTPP#run echo no", "TXTPP#include x", "plain", "", "  lead (not first)", "TAG1 T2", "é", "x  y", "=TXTPP#"]) for _ in range(1 + r.below(5))]
+        ls[0] = ls[0].lstrip() or "first"
+        ls = [l.rstrip() for l in ls]
+        le = r.choice(["\n", "\r\n"])
+        body = ["+TXTPP#write " + ls[0]] + ["+" + l for l in ls[1:]]
+        pre = r.choice([[], ["-TXTPP#tag TAG1", "-TXTPP#write stored"]])   # a stored tag must not be substituted into write output
+        post = ["use TAG1"] if pre else []
+        if post: body = body + ["+"]        # one more (empty) argument puts the following text on its own line
+        src = le.join(pre + body) + le + (le.join(post) + le if post else "")
+        p = Project("wr%d" % k); p.files = [("/s.txt.txtpp", src.encode())]; p.inputs = ["s.txt"]; p.sched = [0] * 4
+        esc.append(p); emeta.append((ls, le, bool(pre)))
+    oi, om = both(projs + esc, oracle=False)
+    violations = []; nontriv = set()
+    for k, p in enumerate(projs):
+        a, b = oi[k], om[k]
+        t, le, final = meta[k]
+        # the line ending is the one of the first line; OS default when the source has none
+        srcb = p.files[0][1]
+        ole = le_of_source(srcb).decode()
+        exp = ole.join(t) + (ole if (t and p.trailing) else "")
+        # a source whose only content is empty lines etc.: lines() semantics — the expected text is the lines re-joined
+        got = a["F"].get("/s.txt")
+        explines = srcb.decode().replace("\r\n", "\n").split("\n")
+        if explines and explines[-1] == "": explines = explines[:-1]
+        exp = ole.join(explines) + (ole if (explines and p.trailing) else "")
+        if a["verdict"] != "ok" or got != exp.encode():
+            if len(violations) < 5:
+                violations.append(proj_violation("C16", "a source without directive lines was not reproduced line for line", p, a, b, extra={"expected": exp, "got": short(got)}))
+        else: nontriv.add(got)
+        if (a["verdict"], a["F"]) != (b["verdict"], b["F"]) and len(violations) < 5:
+            violations.append(proj_violation("C16", "bytes differ from the model", p, a, b, found=False))
+    for k, p in enumerate(esc):
+        a, b = oi[len(projs) + k], om[len(projs) + k]
+        ls, le, has_tag = emeta[k]
+        exp = le.join(ls) + le + ("use stored" + le if has_tag else "")
+        got = a["F"].get("/s.txt")
+        if a["verdict"] != "ok" or got != exp.encode():
+            if len(violations) < 5:
+                violations.append(proj_violation("C16", "lines escaped with write were not reproduced exactly", p, a, b, extra={"expected": exp, "got": short(got)}))
+        else: nontriv.add(got)
+        if (a["verdict"], a["F"]) != (b["verdict"], b["F"]) and len(violations) < 5:
+            violations.append(proj_violation("C16", "bytes differ from the model", p, a, b, found=False))
+    cov = {"evaluations": len(projs) + len(esc), "distinct_nontrivial": len(nontriv),
+           "rule": "(a) sources made only of lines the grammar does not recognise (look-alikes, blanks, non-ASCII), LF/CRLF, with/without final newline, option on/off: output must equal the lines re-joined; "
+                   "(b) line sequences (directive look-alikes, blanks, tag names) escaped with a write directive, optionally with a stored tag around: output must equal the lines; distinct_nontrivial = distinct correct outputs",
+           "identity_cases": len(projs), "write_roundtrip_cases": len(esc),
+           "samples": [projs[1].files[0][1].decode(), esc[1].files[0][1].decode()]}
+    return {"coverage": cov, "violations": violations}
